@@ -55,6 +55,7 @@ def get_combined(fields, name):
 def content_decode(coding, raw):
     """Returns (bytes, error)."""
     coding = (coding or b'').strip().lower()
+    israw = False
     if coding == b'gzip':
         if raw[:1] != b'\x1f':
             return raw, None        # mislabelled identity (documented wpull tolerance)
@@ -68,6 +69,7 @@ def content_decode(coding, raw):
             d = zlib.decompressobj()
         else:
             d = zlib.decompressobj(-zlib.MAX_WBITS)
+            israw = True
     else:
         return raw, None
     try:
@@ -76,6 +78,10 @@ def content_decode(coding, raw):
     except zlib.error:
         return None, 'bad-coding'
     if not d.eof:
+        return None, 'bad-coding'
+    if israw and d.unused_data:
+        # raw deflate has no checksum: bytes after its final block mean that this is not a
+        # deflate stream at all (typically a zlib stream whose header is damaged)
         return None, 'bad-coding'
     return out, None
 
